@@ -5,64 +5,14 @@ family of the unchanged /repo, evaluated on the `input` dict of a failing input 
 args = [[base re, base im], [exponent re, exponent im]] with (lo, hi) pairs of enc_mpf strings, class, point = [x, y, u, v] as
 'm*2^e' strings, component, side, excess_log2_ulp).
 
-Both families are inherited from mpi_atan2 (IV6 / IV7 = IV9 / IV10 for iv.log): mpci_pow evaluates exp(y * mpci_log(x)) for every
-exponent that is not an integer point, and the imaginary part of mpci_log is mpi_atan2.
+(The two families inherited from mpi_atan2 -- bases touching the negative real axis from below, real bases straddling 0 --
+that this family exposed at first are gone since the fix of mpi_atan2 in /repo c810f7f; no predicate is kept for them.)
 """
 from findings import predicate
-from common import dec_mpf
-
-
-def _sgn(s):
-    sign, man, exp, bc = dec_mpf(s)
-    if man:
-        return -1 if sign else 1
-    if exp == 0:
-        return 0
-    return None
 
 
 def _is_cpow(inp):
     return inp.get("fun") == "cpow" and len(inp.get("args", [])) == 2
-
-
-def _integer_point_exponent(inp):
-    """the exponent is a real integer point: mpci_pow takes the mpci_pow_int route, the logarithm is not used"""
-    (ua, ub), (va, vb) = inp["args"][1]
-    if not (ua == ub and _sgn(va) == 0 and _sgn(vb) == 0):
-        return False
-    sign, man, exp, bc = dec_mpf(ua)
-    return (man != 0 and exp >= 0) or (man == 0 and exp == 0)
-
-
-def _pt_sign(inp, i):
-    m = int(str(inp["point"][i]).split("*")[0])
-    return (m > 0) - (m < 0)
-
-
-@predicate("civ4_cpow_base_lower_half_plane_touching_negative_axis")
-def _cpow_lower_touching(inp):
-    """base [xa, xb] + [ya, 0]i with ya < 0 and xa < 0, exponent not an integer point: mpi_atan2's 'lower half-plane' branch
-    returns [atan2(0, xa) = +pi, atan2(ya, xb) <= 0], lower endpoint above the upper one; the products with the exponent take
-    the hull [negative, +pi], which misses the arguments in (-pi, atan2(ya, xb)) of the points of the rectangle below the axis"""
-    if not (_is_cpow(inp) and inp.get("class") in ("contain", "wellformed")):
-        return False
-    (xa, xb), (ya, yb) = inp["args"][0]
-    if not (_sgn(yb) == 0 and _sgn(ya) == -1 and _sgn(xa) == -1):
-        return False
-    return not _integer_point_exponent(inp)
-
-
-@predicate("civ4_cpow_real_base_straddles_zero")
-def _cpow_real_straddle(inp):
-    """base [xa, xb] + [0, 0]i with xa < 0 <= xb (also iv.mpf([xa, xb]) ** y through the ComplexResult fallback), exponent not an
-    integer point: mpi_atan2 with y = [0, 0] and xa < 0 returns the pi interval only, so the values x0**w0 of the points x0 >= 0
-    (argument 0) are not covered; failing sample point with x0 >= 0"""
-    if not (_is_cpow(inp) and inp.get("class") == "contain"):
-        return False
-    (xa, xb), (ya, yb) = inp["args"][0]
-    if not (_sgn(ya) == 0 and _sgn(yb) == 0 and _sgn(xa) == -1 and _sgn(xb) in (0, 1)):
-        return False
-    return (not _integer_point_exponent(inp)) and _pt_sign(inp, 0) >= 0
 
 
 @predicate("civ4_cpow_within_2^-11_ulp")
